@@ -1,7 +1,7 @@
 """C06 — server subscription bookkeeping and the per-connection cap (structural clauses)."""
 import re
 
-from .common import (fkey, where, short, arg_is_local, follow_value, block_line, terminal_field, callback_invocations, classify_config_leaves, CORE, SERVER)
+from .common import (control, forget_scan, fkey, where, short, arg_is_local, follow_value, block_line, terminal_field, callback_invocations, classify_config_leaves, CORE, SERVER)
 from ..facts import op_place, op_const, AnchorLost, is_test_body
 from .. import flow
 
@@ -279,3 +279,10 @@ LEVEL_TEXT = (
 )
 LEVEL_NOTE = "Trusted: rustc MIR; tokio Semaphore RAII. Not decided: the count invariant at every instant, timing of handler drops."
 TECHNIQUE = "dominance (acquire-before-use) + ownership-flow tracing + forbidden-call scan + Drop/Clone/Arc sharing analysis over ADT and impl facts"
+
+
+def control_forget(ctx):
+    control(ctx, "C06.R2", "mem::forget / add_permits / permit.forget", lambda r: forget_scan(ctx.F, r, "C06.R2", ("verif_fixtures",), floor=1))
+
+
+CONTROLS = [control_forget]
